@@ -46,14 +46,25 @@ var errThen = errors.New("then failed")
 var errRb = errors.New("rollback failed")
 
 const (
-	shortTTL  = 120 * time.Millisecond
-	slowSleep = 200 * time.Millisecond
+	shortTTL  = 300 * time.Millisecond
+	slowSleep = 450 * time.Millisecond
 )
 
+// run executes one row; a row with a short ttl is repeated when the machine was too busy for the
+// assumption "steps other than the slow one take negligible time" to hold in that execution
 func run(k *kase) {
+	for attempt := 0; attempt < 8; attempt++ {
+		if runOnce(k) {
+			return
+		}
+	}
+}
+
+func runOnce(k *kase) (timingOK bool) {
 	impl := map[string]any{}
 	k.Impl = impl
 	calls := []call{}
+	slept := false
 	base := context.Background()
 	if k.Traced {
 		base = context.WithValue(base, types.TracingID, "tid-1")
@@ -75,6 +86,7 @@ func run(k *kase) {
 				// cancellation of a derived context is propagated synchronously by context.WithCancel/WithTimeout
 			}
 			if strings.EqualFold(k.Slow, name) {
+				slept = true
 				time.Sleep(slowSleep) // this step overruns ttl
 			}
 			c.Exit = ctx.Err() != nil
@@ -97,6 +109,7 @@ func run(k *kase) {
 		cancel()
 	}
 	var err error
+	t0 := time.Now()
 	kind, msg := hx.Guard(10*time.Second, func() {
 		if k.Fn == "pcr" {
 			var rb func(context.Context) error
@@ -114,6 +127,11 @@ func run(k *kase) {
 			err = utils.Txn(ctx0, cond, then, rb, ttl)
 		}
 	})
+	elapsed := time.Since(t0)
+	if slept {
+		elapsed -= slowSleep
+	}
+	timingOK = ttl == time.Hour || elapsed < shortTTL/4
 	if k.Cancel == "afterAll" {
 		cancel()
 	}
@@ -133,6 +151,7 @@ func run(k *kase) {
 	default:
 		impl["ret"] = "other:" + err.Error()
 	}
+	return timingOK
 }
 
 func TestGen(t *testing.T) {
@@ -175,7 +194,7 @@ func TestGen(t *testing.T) {
 	// the slow rows sleep in real time: run the (independent) rows on 48 goroutines
 	var wg sync.WaitGroup
 	ch := make(chan *kase)
-	for w := 0; w < 48; w++ {
+	for w := 0; w < 32; w++ {
 		wg.Add(1)
 		go func() {
 			defer wg.Done()
